@@ -115,10 +115,11 @@ CHECKS = {
               "the expression contains a true range. (b) Whole core (TestPlacement): 1-3 generated agents (rack/kind attributes, ample or tight "
               "cpu/memory, port ranges with holes, optionally tiny control-port region) and 1-6 generated tasks (constraints at task-template, "
               "aggregator and role level incl. a nearer definition correcting or breaking a farther one, machine_id, wants, static port "
-              "ranges that may collide between tasks, 0-2 inbound TCP and IPC channels, direct/basic/fairmq) deployed by the real scheduler; "
+              "ranges that may collide between tasks, 0-2 inbound TCP and IPC channels in the template and 0-2 more declared on the role, several "
+              "roles optionally running one task template, direct/basic/fairmq) deployed by the real scheduler; "
               "every LAUNCH received by the simulated master is joined with the offer it refers to: agent satisfies the merged constraints, "
-              "every port of the task is in the offer, static ports as written, at least one port per inbound TCP channel plus a control port "
-              "for controllable tasks, ports pairwise distinct on an agent, cpu/memory of all tasks of one offer within the offer, every offer "
+              "every port of the task is in the offer, static ports as written, exactly one port per inbound TCP channel (template and role level) "
+              "plus a control port for controllable tasks (a surplus control port of a basic task is tolerated), ports pairwise distinct on an agent, cpu/memory of all tasks of one offer within the offer, every offer "
               "accepted or declined, the core survives. Distinct = distinct case digests."),
         assumptions=["only acceptance of an unsuitable agent/offer is a violation; refusing a suitable one is counted (class false-negative / deployment-failed) but is not part of this property",
                      "executor resources added by the framework to every task are not counted against the offer in the whole-core part"],
